@@ -651,3 +651,41 @@ package kcp
 //@   requires s.imm() && len(data) <= 1500
 //@   modifies everything
 //@   ensures @C06 [rejected-packet-has-no-effect] calls(UDPSession.kcpInput, s) == old(calls(UDPSession.kcpInput, s)) ==> sameheap(KCP, RingBuffer, segmentHeap, fecDecoder, shardHeap, UDPSession, allelems, allmaps)
+//
+// Listener.
+//@ pred (l *Listener) imm() = l.sessions != nil && l.chAccepts != nil
+//@      && (typeis(l.block, ptr_aeadCrypt) ==> unboxptr(l.block, aeadCrypt) != nil && unboxptr(l.block, aeadCrypt).aead != nil)
+//@ pred (l *Listener) inv() = forall k string :: in(l.sessions, k) ==> l.sessions[k] != nil && l.sessions[k].imm()
+//@      && l.sessions[k].block == l.block && addrstr(l.sessions[k].remote) == k && l.sessions[k].l == l
+//@ monitor Listener.sessionLock self.inv()
+//
+//@ func newUDPSession counted trusted
+//@   modifies all(DefaultSnmp)
+//@   ensures result != nil && fresh(result) && result.imm() && result.kcp.conv == conv && result.remote == remote
+//@   ensures result.block == block && result.l == l
+//
+//@ func UDPSession.Close counted trusted
+//@   requires s.imm()
+//@   modifies everything
+//@   ensures s.l != nil ==> !in(s.l.sessions, addrstr(s.remote))
+//@   ensures forall o int :: o != ref(old(s.kcp.buffer)) ==> bytesobj(o) == old(bytesobj(o))
+//
+// Listener.packetInput is verified in sequential mode for its own effects (C06, C11): the
+// assertions below are evaluated in its frame immediately before the named calls.
+//@ func Listener.packetInput
+//@   requires l.imm() && len(data) <= 1500 && addr != nil
+//@   requires forall k string :: in(l.sessions, k) ==> ref(l.sessions[k].kcp.buffer) != ref(data)
+//@   modifies everything
+//@   callsite UDPSession.kcpInput requires @C06 [integrity-gate] gate(l.block, data)
+//@   callsite UDPSession.Close requires @C06 [integrity-gate-before-close] gate(l.block, data)
+//@   callsite newUDPSession requires @C06 [integrity-gate-before-create] gate(l.block, data)
+//@   callsite UDPSession.kcpInput requires @C11 [only-the-session-of-this-address] (old(in(l.sessions, addrstr(addr))) && s == old(l.sessions[addrstr(addr)])) || fresh(s)
+//@   callsite UDPSession.kcpInput requires @C11 [conversation-id-matches] !hasConv || conv == s.kcp.conv
+//@   callsite UDPSession.Close requires @C11 [close-only-on-new-conversation-start] exist && hasConv && conv != s.kcp.conv && sn == 0 && s == old(l.sessions[addrstr(addr)])
+//@   callsite newUDPSession requires @C11 [create-only-when-unmapped-and-identified] hasConv && !in(l.sessions, addrstr(addr))
+//@   ensures @C06 [rejected-packet-has-no-effect] (forall o int :: callsat(UDPSession.kcpInput, o) == old(callsat(UDPSession.kcpInput, o)))
+//@        && (forall o int :: callsat(UDPSession.Close, o) == old(callsat(UDPSession.Close, o))) && calls(newUDPSession) == old(calls(newUDPSession))
+//@        ==> sameheap(KCP, RingBuffer, segmentHeap, fecDecoder, shardHeap, UDPSession, Listener, allelems, allmaps)
+//@            && sends(Listener.chAccepts, l.chAccepts) == old(sends(Listener.chAccepts, l.chAccepts))
+//@   ensures @C11 [at-most-one-session-created] calls(newUDPSession) <= old(calls(newUDPSession)) + 1
+//@   ensures @C11 [one-accept-per-created-session] sends(Listener.chAccepts, l.chAccepts) - old(sends(Listener.chAccepts, l.chAccepts)) == calls(newUDPSession) - old(calls(newUDPSession))
